@@ -82,6 +82,8 @@ class OrderMistakeShock(EventABC):
             raise ValueError("orderTimeLength is required for OrderMistakeShock")
         if not isinstance(settings["orderTimeLength"], int):
             raise ValueError("orderTimeLength have to be int")
+        if settings["orderTimeLength"] <= 0:
+            raise ValueError("orderTimeLength have to be positive")
         self.order_time_length = settings["orderTimeLength"]
         if "enabled" in settings:
             self.is_enabled = settings["enabled"]
